@@ -415,6 +415,28 @@ func init() {
 			re := (*a[0].(*value)).(structure)[0].(nativeBox).v.(*regexp.Regexp)
 			return re.String()
 		},
+		"(*regexp.Regexp).LiteralPrefix": func(fr *frame, a []value) value {
+			re := (*a[0].(*value)).(structure)[0].(nativeBox).v.(*regexp.Regexp)
+			p, complete := re.LiteralPrefix()
+			return tuple{p, complete}
+		},
+		"(*regexp.Regexp).FindString": func(fr *frame, a []value) value {
+			re := (*a[0].(*value)).(structure)[0].(nativeBox).v.(*regexp.Regexp)
+			return re.FindString(strArg(a[1]))
+		},
+		"(*regexp.Regexp).FindStringIndex": func(fr *frame, a []value) value {
+			re := (*a[0].(*value)).(structure)[0].(nativeBox).v.(*regexp.Regexp)
+			loc := re.FindStringIndex(strArg(a[1]))
+			if loc == nil {
+				return []value(nil)
+			}
+			return []value{loc[0], loc[1]}
+		},
+		"(*regexp.Regexp).NumSubexp": func(fr *frame, a []value) value {
+			re := (*a[0].(*value)).(structure)[0].(nativeBox).v.(*regexp.Regexp)
+			return re.NumSubexp()
+		},
+		"regexp.QuoteMeta": func(fr *frame, a []value) value { return regexp.QuoteMeta(strArg(a[0])) },
 		"(*strings.Builder).Reset": func(fr *frame, args []value) value {
 			cur.builders[args[0].(*value)] = ""
 			return nil
@@ -1025,6 +1047,34 @@ func init() {
 }
 
 func init() {
+	// sort.Slice / sort.SliceStable (the real ones swap through reflectlite): a stable insertion
+	// sort of the slice behind the interface, calling the target's less function
+	sortSlice := func(fr *frame, a []value) value {
+		it, ok := a[0].(iface)
+		if !ok {
+			panic(pathAbort{"unsupported: sort.Slice of a non-interface operand"})
+		}
+		xs, ok := it.v.([]value)
+		if !ok {
+			panic(rtErr(fr, "reflect: call of Swapper on "+fmt.Sprint(it.t)+" Value"))
+		}
+		less := func(i, j int) bool {
+			r := call(fr.i, fr, token.NoPos, a[1], []value{i, j})
+			b, ok := r.(bool)
+			if !ok {
+				return cur.branch(r.(symB).t)
+			}
+			return b
+		}
+		for i := 1; i < len(xs); i++ {
+			for j := i; j > 0 && less(j, j-1); j-- {
+				xs[j], xs[j-1] = xs[j-1], xs[j]
+			}
+		}
+		return nil
+	}
+	externals["sort.Slice"] = sortSlice
+	externals["sort.SliceStable"] = sortSlice
 	// maps.clone is linknamed to the runtime: a shallow copy of the map behind the interface
 	externals["maps.clone"] = func(fr *frame, a []value) value {
 		it, ok := a[0].(iface)
